@@ -61,7 +61,7 @@ var e2Exceptions = map[string]string{
 	"netpol/eval/internal/k8s.doesNamespacesFieldMatchPeer: deref of peer.GetPeerNamespace() [N3]":      "peer is a pod here (IP test above); namespace objects are attached by getPeer/convertPeerToPodPeer for every real pod, and representative peers (nil namespace) never meet admin policies because exposure analysis rejects admin policies at insertion",
 	"netpol/eval/internal/k8s.doesPodsFieldMatchPeer: deref of peer.GetPeerNamespace() [N3]":            "same as doesNamespacesFieldMatchPeer",
 	"netpol/eval.(*PolicyEngine).removeRedundantRepresentativePeers: deref of pe.namespacesMap[podObj.Namespace] [N5]": "the namespace was inserted by the resolveSingleMissingNamespace call that precedes the lookup in the same function (its error is returned before)",
-	"netpol/eval.(*PolicyEngine).removeRepresentativePeersMatchingLabels: deref of netpol/eval/internal/k8s.Pod.RepresentativeNsLabelSelector [N2]": "entries of representativePeersMap are created only by addRepresentativePod, which stores a non-nil namespace selector (nil with an empty namespace is an error return, nil with a namespace is replaced by the name-label selector) - checked by rule C07-rep-ns",
+	"netpol/eval.(*PolicyEngine).removeRepresentativePeersMatchingLabels: deref of netpol/eval/internal/k8s.Pod.RepresentativeNsLabelSelector [N2]": "entries of representativePeersMap are created only by addRepresentativePod, which stores a non-nil namespace selector (nil with an empty namespace is an error return, nil with a namespace is replaced by the name-label selector)",
 	"netpol/eval.(*evalCache).deleteWorkload: deref of netpol/eval.evalCache.cache [N2]":                                                    "cache is nil only when lru.New fails, which it does only for size <= 0; newEvalCacheWithSize clamps the size to [10,10000]. Not reachable by any input",
 	"netpol/internal/common.(*ConnectionSet).ReplaceNamedPortWithMatchingPortNum: deref of protocolPortSet (alias of conn.AllowedProtocols[protocol] [N5]) [N4]": "called only from checkAndConvertNamedPortsInConnection with protocols that are keys of GetNamedPorts() of the very set the copy was made from, so the protocol is present",
 	"netpol/connlist.(*exposureMaps).appendPeerXgressExposureData: deref of ex.ingressExposureMap[peer] [N5]":                               "every call is dominated by addNewEntry(peer, _, isIngress) on the same peer and direction in the calling function (checked by rule E2-N5-pre)",
